@@ -68,7 +68,7 @@ def project(kind, det, c):
     return e
 
 
-def run(kind, p, seq, enc=default_enc, X=None, resets=(), bads=()):
+def run(kind, p, seq, enc=default_enc, X=None, resets=(), bads=(), fold=False):
     """resets: positions before which the user calls reset(); bads: positions before which a malformed call
     (labels with several observations) is made and must be refused"""
     det = make(kind, p)
@@ -81,6 +81,7 @@ def run(kind, p, seq, enc=default_enc, X=None, resets=(), bads=()):
     other = make(kind, other_p)
     lcg = 12345 + 7 * len(seq)
     ev = []
+    zeros = 0          # correct predictions in a row since the last error / reset / refused call / reported drift (fold=True, STEPD: quiet stretches are folded)
     for t, c in enumerate(seq):
         lcg = (1103515245 * lcg + 12345) % (2 ** 31)
         other.update(1, 1 if (lcg >> 16) % 3 else 0)
@@ -91,6 +92,7 @@ def run(kind, p, seq, enc=default_enc, X=None, resets=(), bads=()):
             e = project(kind, det, 0)
             e["op"] = "reset"
             ev.append(e)
+            zeros = 0
         if t in bads:
             try:
                 det.update([1, 0], [1, 1])
@@ -100,12 +102,25 @@ def run(kind, p, seq, enc=default_enc, X=None, resets=(), bads=()):
                 e = project(kind, det, 0)
                 e["op"] = "bad"
             ev.append(e)
+            zeros = 0
         yt, yp = enc(c, t)
         if X is None:
             det.update(yt, yp)
         else:
             det.update(yt, yp, X(t))
-        ev.append(project(kind, det, c))
+        e = project(kind, det, c)
+        if fold and kind == "STEPD" and c == 0 and zeros >= int(p["window_size"]) and e["state"] == "None" and e["recs"] == [-1, -1]:
+            # (only observations that ARE what a quiet step prescribes are folded; anything else is logged as the update it is)
+            if ev and ev[-1]["op"] == "quiet":
+                e["n"] = ev[-1]["n"] + 1
+                ev[-1] = e
+            else:
+                e["n"] = 1
+                ev.append(e)
+            e["op"] = "quiet"
+        else:
+            ev.append(e)
+        zeros = zeros + 1 if (c == 0 and e["state"] != "drift") else 0
     return {"cfg": spec_cfg(kind, p), "ev": ev, "kind": kind, "params": p, "seq": list(map(int, seq)),
             "resets": list(resets), "bads": list(bads)}
 
